@@ -8,6 +8,7 @@
 #include "cctz/civil_time.h"
 #include "cctz/time_zone.h"
 #include "time_zone_impl.h"  // /repo/src: the library's own test-only cache reset
+#include "seams.h"
 #include "tzif.h"
 
 namespace sim { TzData synthx_zone(uint64_t seed); }
@@ -44,7 +45,10 @@ const std::string& shipped_bytes(const std::string& rel) {
   auto it = m.find(rel);
   if (it != m.end()) return it->second;
   std::string b;
+  const bool was_active = fs.active;   // the harness's own file reads never go through the simulated file system
+  fs.active = false;
   read_file(repo_root() + "/testdata/zoneinfo/" + rel, &b);
+  fs.active = was_active;
   return m[rel] = b;
 }
 
